@@ -7,7 +7,7 @@ from vt.gen import inputs
 from vt.ref import walks
 
 U64 = (1 << 64) - 1
-NON_DIRECT = {"shuffle", "carry", "recursion"}
+NON_DIRECT = {"shuffle", "carry", "recursion", "unresolved_intc"}
 
 
 def eligible(case):
